@@ -8,13 +8,13 @@ FAILS = ["none", "resolve", "before", "aps", "init", "after", "early"]
 
 
 def scenario(n, single, slice_, lazy=(), wrap=None, fail=None, self_opt=None, slice_opt=None, order=None,
-             reg_order=None, lookups=(), seed=0, sid="", sparse=False, procs=(), mode=None, quiet=False, runners=()):
+             reg_order=None, lookups=(), seed=0, sid="", sparse=False, procs=(), mode=None, quiet=False, runners=(), all_=False):
     return dict(id=sid, n=n, single=[sorted(x) for x in single], selfOpt=list(self_opt or [False] * n),
                 slice=[sorted(x) for x in slice_], sliceOpt=list(slice_opt or [False] * n), lazy=sorted(lazy),
                 wrap=list(wrap or ["none"] * n), fail=list(fail or ["none"] * n),
                 order=list(order or range(1, n + 1)), regOrder=list(reg_order or range(1, n + 1)),
                 lookups=list(lookups), seed=seed, sparse=sparse, procs=list(procs), mode=list(mode or ["normal"] * n), quiet=quiet, runners=sorted(runners),
-                rorder=[x for x in (order or range(1, n + 1)) if x in set(runners)])
+                rorder=[x for x in (order or range(1, n + 1)) if x in set(runners)], all=all_)
 
 
 def rand_scenario(rng, n, p_edge=0.35, p_slice=0.3, wraps=False, fails=False, lazies=False, lookups=0,
